@@ -72,16 +72,8 @@ theorem json_roundtrip_string_partial (fp : FloatParse) (s : Bytes) (bt : Bool) 
   rw [json_wellformed_string s bt hv]
   simp [ofJson]
 
-/-- A msgpack codec over decoded JSON data (what `GoToMsgpack` / `MsgpackToGo` do with the
-Go value that `JsonToGo` produced). -/
-structure MsgpackCodec where
-  enc : JValue → Bytes
-  dec : Bytes → Option JValue
-
-/-- `SexpToMsgpack`: JSON text → Go value → msgpack -/
-def msgpack (c : MsgpackCodec) (v : V) : Option Bytes := (Rfc8259.parse (sexpToJson v)).map c.enc
-/-- `MsgpackToSexp` -/
-def unmsgpack (c : MsgpackCodec) (fp : FloatParse) (b : Bytes) : Option V := (c.dec b).bind (ofJson fp false)
+/-! `MsgpackCodec`, `msgpack` (= `SexpToMsgpack`) and `unmsgpack` (= `MsgpackToSexp`) are defined in
+Model/Json.lean (the history model Model/JsonHistory.lean uses them too). -/
 
 /-- **msgpack** is a corollary: under the codec round-trip law `dec (enc g) = g`, the
 msgpack round trip of a value equals its JSON round trip. -/
